@@ -32,6 +32,30 @@ CLAIMS = {
          'stop/cleanup hooks, pre-order/reverse-order iteration shape, required-only abort, Main()/Start()/Stop() sequencing', '§4 C11',
          'typestate-style path rules over clang AST/CFG'),
 }
+CLAIMS.update({
+ 'C02': ('A13 heap-protocol typestate of timer_min_heap_ over every function touching it (HEAP at exits/user callbacks/front reads, one comparator ordering by '
+         'deadline), not-before-deadline guard, fresh-interval / re-arm-by-interval data dependence, callback copied before recycling and no use after it, '
+         'synchronous token free + deferred record free, one-shot ordering, TimerEventImpl enabled<=>registered', '§4 C02',
+         'typestate dataflow (heap protocol) + CFG path rules over clang AST/CFG'),
+ 'C06': ('write-arming invariant (running and queued => write event armed) decided at every state-changing site, remainder arithmetic shape of send(), '
+         'completion only when drained, receive-side commit/spill shape, destruction only through deferred tasks at the in-callback sites', '§4 C06',
+         'typestate-style site rules + ownership (deferred delete) rules over clang AST/CFG'),
+ 'C12': ('A8 no exception escapes the receive path (call-graph scan with try map, presence proofs by reaching definitions), fail verdicts only on a complete '
+         'line and cursor-update shapes, no dispatch after a close-marked request, single commit per request by construction, in-order flush shape', '§4 C12',
+         'exception-escape analysis + reaching definitions + CFG path rules over clang AST/CFG'),
+ 'C13': ('A8 no exception escapes the input path (telnet, raw TCP, terminal), no access to an empty history, deferred tasks capture tokens not pooled pointers, '
+         'cursor-update guards, prompt/history-cap shape, telnet framing length tests, bounded history recursion', '§4 C13',
+         'exception-escape analysis + ownership/deferred-capture + CFG path rules over clang AST/CFG'),
+ 'C14': ('A8 framing/dispatch never throw (parse only inside CatchThrow, typed json access under type tests), no narrow length sum, fetchNoCopy result proven '
+         'non-null or tested, resumable-framing return discipline, complete-then-erase with sibling agreement, no container handle live across the user callback, '
+         'bounded recursion, FindEndPos scan guards', '§4 C14', 'exception-escape + input-hardening + re-entrancy rules over clang AST/CFG'),
+ 'C15': ('every datagram-filled local initialised or status-checked, reported values control dependent on successful reads, bounded compression recursion, '
+         'deserializer bounds-check/width/advance agreement over all readers, complete-then-erase of lookups, no exception on the datagram path', '§4 C15',
+         'input-hardening (def/use + guard) rules + sibling agreement over clang AST/CFG'),
+ 'C16': ('re-entrancy counter bracket around every user function (abstract counter dataflow), state writes only behind the re-entrancy test, transition step '
+         'order, delegation/handler/route precedence with first-match scan shape, enter/exit and sub-machine start/stop pairing, definition calls rejected while running', '§4 C16',
+         'counter dataflow + CFG order/pairing rules over clang AST/CFG'),
+})
 NA = {
  'C07': 'every clause is value-level (byte equality, index arithmetic of the three-way space policy): needs a relational numeric domain or a solver, '
         'outside the static-analysis family as available here (DESIGN.md §5)',
